@@ -464,6 +464,12 @@ class HamiltonianChain(MarkovChain):
         chain.chain_length = int(D["chain_length"])
         chain.steps = int(D["steps"])
 
+        inv_mass = D["inv_mass"]
+        chain.mass = get_particle_mass(
+            inverse_mass=float(inv_mass) if inv_mass.ndim == 0 else inv_mass,
+            n_parameters=chain.n_parameters,
+        )
+
         t = D["theta"]
         chain.theta = [t[i, :] for i in range(t.shape[0])]
 
